@@ -993,6 +993,10 @@ class RTCSctpTransport(AsyncIOEventEmitter):
 
         # server
         elif isinstance(chunk, InitChunk) and self.is_server:
+            if self._association_state != self.State.CLOSED:
+                # a delayed or duplicated INIT must not disturb the association
+                return
+
             self._last_received_tsn = tsn_minus_one(chunk.initial_tsn)
             self._reconfig_response_seq = tsn_minus_one(chunk.initial_tsn)
             self._remote_verification_tag = chunk.initiate_tag
